@@ -81,8 +81,12 @@ macro_rules! seq_pc {
                 )
             }
 
-            fn set_context(&mut self, _ctx: &_C) {
-                unimplemented!()
+            #[allow(non_snake_case)]
+            fn set_context(&mut self, ctx: &_C) {
+                self.$first_type.set_context(ctx);
+                $(
+                    self.$generic_type.set_context(ctx);
+                )+
             }
         }
 
